@@ -134,6 +134,8 @@ where
           neg("e := -e".into(), "field:e", mk_sig::<CS>(&(-e.clone()), &s, &v), &bases, &m, &w.pk);
           neg("v := v^-1 mod N".into(), "field:v", mk_sig::<CS>(&e, &s, &vinv), &bases, &m, &w.pk);
           neg("v := v + N".into(), "field:v-other-representative", mk_sig::<CS>(&e, &s, &(v.clone() + &w.pk.N)), &bases, &m, &w.pk);
+          neg("v := v - N".into(), "field:v-other-representative", mk_sig::<CS>(&e, &s, &(v.clone() - &w.pk.N)), &bases, &m, &w.pk);
+          neg("v := v + 2N".into(), "field:v-other-representative", mk_sig::<CS>(&e, &s, &(v.clone() + w.pk.N.clone() * 2u32)), &bases, &m, &w.pk);
           neg("s := -s, with v adjusted by b^(-2s/e)? (not derivable) -> s := -s".into(), "field:s", mk_sig::<CS>(&e, &(-s.clone()), &v), &bases, &m, &w.pk); }
         // a LONGER vector than the signed one, with the same bases (the extra attributes have no base): must not verify
         if !r.single_api { for extra in [Integer::from(0), Integer::from(1), A[3].1.clone()] { let mut m2 = m.clone(); m2.push(extra.clone()); neg(format!("vector extended by {} (no base for it)", sd(&extra)), "attribute-count", Some(sig.clone()), &bases, &m2, &w.pk); } }
